@@ -39,7 +39,9 @@ func FormatSimple(input interface{}) string {
 		var v interface{}
 		switch field.Kind() {
 		case reflect.String:
-			v = fmt.Sprintf("%q", field.String())
+			// ParseSimple removes the quotes and takes everything in
+			// between literally - the value must not be escaped.
+			v = `"` + field.String() + `"`
 		default:
 			v = field
 		}
